@@ -377,7 +377,10 @@ def run(tier, seed):
     n_default = dds.get_option("hash.max_sequence_size")
     dds.set_option("hash.max_sequence_size", 3)
     for label, value, code in (("a list longer than hash.max_sequence_size", [1, 2, 3, 4, 5], "SEQUENCE_TOO_LONG"), ("a nested list longer than the bound", [[0, 1, 2, 3, 4]], "SEQUENCE_TOO_LONG"),
-                               ("a list holding an object of an unsupported type", [1, {2, 3}], "TYPE_NOT_SUPPORTED")):
+                               ("a list holding an object of an unsupported type", [1, {2, 3}], "TYPE_NOT_SUPPORTED"),
+                               ("a tuple longer than hash.max_sequence_size", (1, 2, 3, 4, 5), "SEQUENCE_TOO_LONG"), ("a pair holding a tuple longer than the bound", (0, (0, 1, 2, 3, 4)), "SEQUENCE_TOO_LONG"),
+                               ("a pair holding an object of an unsupported type", (1, {2, 3}), "TYPE_NOT_SUPPORTED"), ("an empty-looking tuple around an unsupported object", ({2, 3},), "TYPE_NOT_SUPPORTED"),
+                               ("a dict whose value is a list longer than the bound", {"k": [1, 2, 3, 4, 5]}, "SEQUENCE_TOO_LONG")):
         c05vars_a.BATCH, c05vars_b.BATCH, c05vars_a.OTHER = value, 0, 0
         rep.count("variable_states")
         try:
